@@ -51,26 +51,5 @@ theorem dec_enc (m : Plain) (h : m.wf) : decPlain (encPlain m) = some m := by
     simp [hp]
     omega
 
-theorem enc_dec (b : Bytes) (m : Plain) (h : decPlain b = some m) : encPlain m = b := by
-  unfold decPlain at h
-  split at h
-  · cases h
-  · rename_i hl
-    simp only [] at h
-    split at h
-    · cases h
-    · rename_i ho
-      injection h with h; subst h
-      match b, hl with
-      | [b0,b1,b2,b3,b4,b5,b6,b7,b8,b9,b10,b11,b12,b13], _ =>
-        simp only [encPlain, List.headD, List.drop, List.take]
-        have := be32_rd32 b10 b11 b12 b13
-        simp only [List.cons_append, List.nil_append, List.append_assoc]
-        rw [this]
-        congr 1
-        apply UInt8.toNat_inj.mp
-        simp
-        have := b0.toNat_lt
-        omega
 #print axioms dec_enc
-#print axioms enc_dec
+-- the converse direction is proved generically in Layout.lean (encode_decode)
